@@ -172,6 +172,42 @@ pub fn gen_c11(rng: &mut Rng, tier: Tier) -> Case {
         ];
         return Case::Cursor(CursorCase { spec, env: gen::gen_env(rng, false), steps, fresh_each: false, v1: false, sparse_hole: None });
     }
+    if rng.chance(1, 40) {
+        // power-of-two landers: the first block (8-byte length + body, codec none) ends exactly on a
+        // multiple of 4 KiB..128 KiB of the emitted stream, where a staging buffer of that size inside
+        // the library would be exactly full; through a Writer's sink or through a sorter's chunk
+        let t = *rng.pick(&[4096usize, 8192, 16384, 32768, 65536, 65536, 131072]);
+        // 8 + (1 + vl + 1 + v) + 12 == t
+        let mut v = t - 22 - 2;
+        if v >= 16_384 {
+            v = t - 22 - 3;
+        }
+        let v = (v as i64 + *rng.pick(&[0i64, 0, 0, -1, 1])) as usize;
+        let mut ents = vec![(B(vec![b'a']), B(vec![0x5A; v]))];
+        for i in 0..rng.urange(0, 3) {
+            ents.push((B(vec![b'b' + i as u8]), B(vec![i as u8; rng.urange(0, 40)])));
+        }
+        let env = gen::gen_env(rng, false);
+        return if rng.chance(1, 2) {
+            let knobs = Knobs { codec: 0, level: 0, block_size: *rng.pick(&[None, Some(1024)]), interval: None, levels: *rng.pick(&[0u8, 1, 2]), ctor: 0, fin: 0 };
+            Case::File(FileCase { spec: FileSpec { knobs, entries: Entries::Literal(ents) }, env, v1: false, big: None })
+        } else {
+            let mut s = crate::props_sort::gen_sort_case(rng, tier);
+            s.inserts = Entries::Literal(ents);
+            s.alt_knobs.clear();
+            s.knobs.raw_threshold = Some(1 << 20);
+            s.knobs.allow_realloc = true;
+            s.knobs.init_cap = Some(4096);
+            s.knobs.chunk_codec = Some(0);
+            s.knobs.parallel = false;
+            s.knobs.creator = 0;
+            if s.consume == 3 {
+                s.consume = 2;
+            }
+            s.env = env;
+            Case::Sort(s)
+        };
+    }
     let c = gen_any_small(rng, tier, false);
     let env = gen::gen_env(rng, false);
     with_env(&c, env)
